@@ -325,7 +325,9 @@ def c10(res, rng, tier, replay=None):
             res.tie_fail('C10 table hypothesis: the case folding table relates a separator', {'entry': item})
     # crafted cells of the termination conjunction table: branches that are open / closed at either end, adjacent
     forms = ['{a,b/c}', '{a/,b/c/}', '{/a,/b/c}', '{/a/,/b/c/}', '{a,b/c/}', '{a/,/b}', '<a/:1,2>', '</a:1,2>', '<a/b:1,2>', '{a/**,b}', '{**/a,b}',
-             '<a/:0,2>', '{a,b}', '<a:1,2>']
+             '<a/:0,2>', '{a,b}', '<a:1,2>',
+             # products of ranges: a bounded body repeated an exact number of times, a body of depth >= 2 repeated a range of times
+             '<a/b/:1,2>', '<a/b/c/:1,3>', '<<a/:1,2>:2>', '<<a/:1,2>:3>', '<{a/,b/c/}:2>', '<*/*/:1,2>', '<a/b/:2,4>', '<<a/b/:1,2>:2,3>', '<{a,b/c}/:3>']
     glue = ['', 'x', '/', 'x/', '/x', '/x/', '/**/', '*']
     crafted = []
     for x in forms:
@@ -653,6 +655,10 @@ def c09(res, rng, tier, replay=None):
 
 
 def c09_class(it, p):
+    # a recorded finding is a deviation of the pinned code, which the model reproduces: when the model of the pinned code does not
+    # say Always for this pattern, an Always from the implementation is something else
+    if it.mhead == 'ok' and it.mf.get('exh') != 'A':
+        return None
     if p in ('', '/') and (it.cls.get('endsep') == '1' or it.cls.get('fnull') == '1'):
         return 'trailing_boundary'
     if it.cls.get('optrep') == '1':
@@ -976,6 +982,43 @@ def wf_violations(t, left_ctx=False, out=None, top=True):
 
 
 C06_KNOWN_TAGS = {'rooted_branch_nested': 'nested_rooting', 'wrap_boundary_nested': 'wraparound_nested_edge'}
+MAX_INVARIANT_SIZE = 0x10000
+
+
+def inv_size(t):
+    """the invariant size in bytes of a token (None when its size varies), as documented: a literal counts its UTF-8 bytes, a separator
+    one, `?` and a class four; concatenation adds, alternation needs equal branches, repetition multiplies an exact count"""
+    k = t['k']
+    if k == 'L':
+        return len(t['text'].encode('utf-8'))
+    if k == 'S':
+        return 1
+    if k == 'O':
+        return 4
+    if k == 'C':
+        return 4 if t['archs'] else 0
+    if k in ('Z', 'T'):
+        return None
+    if k == 'K':
+        sizes_ = [inv_size(c) for c in t['ch']]
+        return None if any(x is None for x in sizes_) else sum(sizes_)
+    if k == 'A':
+        sizes_ = [inv_size(c) for c in t['ch']]
+        return sizes_[0] if sizes_ and all(x is not None and x == sizes_[0] for x in sizes_) else None
+    if k == 'R':
+        lo, hi = t['lo'], t['hi']
+        b = inv_size(t['ch'][0])
+        if hi is not None and lo == hi:
+            return 0 if lo == 0 else (None if b is None else lo * b)
+        return 0 if b == 0 else None
+    return None
+
+
+def oversized(t):
+    s_ = inv_size(t)
+    if s_ is not None and s_ >= MAX_INVARIANT_SIZE:
+        return True
+    return any(oversized(c) for c in t.get('ch', []))
 
 
 def c06(res, rng, tier, replay=None):
@@ -1015,6 +1058,14 @@ def c06(res, rng, tier, replay=None):
         if e not in seen and len(e) < 100:
             seen.add(e)
             exprs.append(e)
+    # the size rule at its threshold (65536 bytes of invariant text), spelled as text, as repetitions, in branches, nested
+    size_cases = ['a' * 65536, 'a' * 65535, '<a:65535>b', '<a:65535>', '<a:65536>', '<a:40000><b:40000>', '{<a:40000><b:40000>,c}', '<ab:32768>',
+                  '<ab:32767>c', 'é' * 32768, 'é' * 32767 + 'a', '<?:16384>', '<?:16383>abc', '<[ab]:16384>', 'x/<a:65535>', '<a/:32768>', '<<a:256>:256>',
+                  '<<a:256>:255>b', '{<a:65536>,<b:65536>}', '<a:65536>*', '*<a:65536>', '<a:65530>' + 'b' * 6, '<a:65530>' + 'b' * 5]
+    for e in size_cases:
+        if e not in seen:
+            seen.add(e)
+            exprs.append(e)
     items = stage_globs(exprs)
     note_shapes(res, items)
     for it in items:
@@ -1023,10 +1074,13 @@ def c06(res, rng, tier, replay=None):
             ih, mh = ' '.join(ih.split(' ')[:2]), ' '.join(mh.split(' ')[:2])     # kind, not span (spans are C17's)
         elif ih.startswith('perr') or mh.startswith('perr'):
             ih, mh = ih.split(' ')[0], mh.split(' ')[0]
+        if mh in ('model-timeout', 'model-stack-overflow', 'model-out-of-fuel'):
+            res.count('model gave no verdict within its budget: ' + mh)      # decided by the oracle below
+            continue
         if ih != mh and not (ih == 'cerr' and mh == 'ok' and has_big_bound(it.e)) and not c05_class(it.e):
             res.tie_fail('C06 rule verdict differs', {'glob': it.e, 'impl': it.impl[:200], 'model': it.model[:200]})
     # parse trees (before the rules) for the oracle
-    cand = [it for it in items if it.ihead.split(' ')[0] in ('ok', 'rerr') and not c05_class(it.e) and not has_big_bound(it.e)]
+    cand = [it for it in items if it.ihead.split(' ')[0] in ('ok', 'rerr') and ((not c05_class(it.e) and not has_big_bound(it.e)) or it.e in size_cases)]
     outs = W.run_impl(['parse ' + hx(it.e) for it in cand])
     kfs = {k['class']: k for k in W.known_findings('C06')}
     for it, o in zip(cand, outs):
@@ -1040,6 +1094,8 @@ def c06(res, rng, tier, replay=None):
         res.evaluations += 1
         res.nontrivial.add(it.e)
         v = wf_violations(tree)
+        if oversized(tree):
+            v.add('oversized_invariant')
         ok = it.ihead == 'ok'
         res.count('wf' if not v else 'illformed')
         for tag in v:
